@@ -329,6 +329,43 @@ def _varint_bytes(n):
             return bytes(out)
 
 
+def mon_acked_never_again(case_line, acts):
+    """C02 / C03, from the wire alone (no client state is consulted, so a client whose bookkeeping is wrong cannot
+    excuse itself): once the PUBACK of a QoS 1 PUBLISH, or the PUBREC of a QoS 2 PUBLISH, that was written whole on the
+    current connection has been read by the client, that PUBLISH is never written again - not on this connection, not
+    with DUP on a later one.  A new message that reuses the identifier starts without DUP and opens a new exchange."""
+    out = []
+    fl = Flow(acts)
+    sent = {}      # pid -> (image modulo DUP, qos, connection of the last whole transmission)
+    acked = {}     # pid -> (image, action index of the acknowledgement)
+    for ev in fl.events:
+        if ev[0] == 'newconn':
+            if (acts[ev[2]].result or '') == 'ok connected':
+                sent = {}; acked = {}
+        elif ev[0] == 'tx':
+            p = ev[2]
+            if p['type'] != 'PUBLISH' or p.get('qos', 0) == 0:
+                continue
+            pid, img = p['pid'], _nodup(p['raw'])
+            if pid in acked and acked[pid][0] == img and p['dup']:
+                out.append(V('PUBLISH id %d (QoS %d) written again with DUP at action #%d although its %s was read at action #%d'
+                             % (pid, p['qos'], ev[3], 'PUBACK' if p['qos'] == 1 else 'PUBREC', acked[pid][1])))
+                return out
+            if not p['dup']:
+                acked.pop(pid, None)
+            sent[pid] = (img, p['qos'], ev[1])
+        elif ev[0] == 'rx' and (ev[2] >> 4) in (4, 5):
+            try:
+                pk = mqttspec.parse_server_packet(ev[2], ev[3])
+            except Exception:
+                continue
+            pid = pk.get('pid')
+            typ = ev[2] >> 4
+            if pid in sent and sent[pid][2] == ev[1] and sent[pid][1] == (1 if typ == 4 else 2):
+                acked[pid] = (sent[pid][0], ev[4])
+    return out
+
+
 def mon_c06(case_line, acts):
     """unresolved QoS>0 PUBLISH packets never exceed the Receive Maximum of the current CONNACK"""
     out = []
